@@ -1088,8 +1088,11 @@ class TypeWorld:
         if recv == "indexer":
             return NONE if name == "__setitem__" else UNKNOWN
         if recv == "index":
-            if name in ("union", "repeat", "difference", "intersection", "drop", "append", "sort_values"):
+            if name in ("union", "repeat", "difference", "intersection", "drop", "append", "sort_values", "delete", "insert", "unique",
+                        "symmetric_difference", "copy", "rename", "take"):
                 return ("index",)
+            if name in ("get_loc",):
+                return NUM
             if name in ("tolist", "to_list"):
                 return ("pylist", STR)
             return UNKNOWN
